@@ -269,7 +269,7 @@ func TestExec(t *testing.T) {
 }
 
 // p2pSetup builds n real hosts + bcast components + frostP2P transports, as dkg.Run does.
-func p2pSetup(t *testing.T, n, thr, nv, seed int) ([]dkg.VerifFTransport, []int, string, func(), error) {
+func p2pSetup(t *testing.T, n, thr, nv, seed int, w *cbWorld) ([]dkg.VerifFTransport, []int, string, func(), error) {
 	t.Helper()
 	lock, p2pKeys, _ := cluster.NewForT(t, 1, thr, n, seed, rand.New(rand.NewSource(int64(seed))))
 	def := lock.Definition
@@ -291,6 +291,9 @@ func p2pSetup(t *testing.T, n, thr, nv, seed int) ([]dkg.VerifFTransport, []int,
 		return nil, nil, "", closeAll, err
 	}
 	ids = defPeers
+	if w != nil {
+		w.ids, w.raw = ids, hosts
+	}
 	for i := range hosts {
 		for j := range hosts {
 			hosts[i].Peerstore().AddAddrs(hosts[j].ID(), hosts[j].Addrs(), peerstore.PermanentAddrTTL)
@@ -313,8 +316,16 @@ func p2pSetup(t *testing.T, n, thr, nv, seed int) ([]dkg.VerifFTransport, []int,
 		if err != nil {
 			return nil, nil, "", closeAll, err
 		}
-		caster := bcast.New(hosts[i], ids, p2pKeys[i], def.DefinitionHash)
-		tp, err := dkg.VerifNewFrostP2P(hosts[i], peerMap, caster, thr, nv)
+		var h host.Host = hosts[i]
+		if w != nil { // mode cb: frost streams are parked in front of the real handler, the bcast wire is in memory
+			h = &gatedHost{Host: hosts[i], w: w, self: i + 1}
+		}
+		caster := bcast.New(h, ids, p2pKeys[i], def.DefinitionHash)
+		if w != nil {
+			caster.VerifUseTransport(h, w.sendRecv(i+1), w.send(i+1))
+			w.comps = append(w.comps, caster)
+		}
+		tp, err := dkg.VerifNewFrostP2P(h, peerMap, caster, thr, nv)
 		if err != nil {
 			return nil, nil, "", closeAll, err
 		}
@@ -353,8 +364,12 @@ func runCeremony(t *testing.T, tr sink, sid int, sched []drv.Step) bool {
 	for i := 1; i <= n; i++ {
 		shareIdx = append(shareIdx, i) // node i (peer index i-1) has share index i
 	}
-	if mode == "p2p" {
-		tps, sidx, dctx, closeAll, err := p2pSetup(t, n, thr, nv, seed+sid+1)
+	var cb *cbWorld
+	if mode == "cb" {
+		cb = newCBWorld(n)
+	}
+	if mode == "p2p" || mode == "cb" {
+		tps, sidx, dctx, closeAll, err := p2pSetup(t, n, thr, nv, seed+sid+1, cb)
 		defer closeAll()
 		if err != nil {
 			t.Fatalf("p2p setup: %v", err)
@@ -423,6 +438,9 @@ func runCeremony(t *testing.T, tr sink, sid int, sched []drv.Step) bool {
 
 				return abort()
 			}
+			if cb != nil && !(cb.castCaptured(i, 1) && cb.sharesParked(i)) {
+				return hang() // the real Round1 did not hand its cast / shares to the wire
+			}
 			nw.mu.Lock()
 			cast, p2p := nw.cast1[i], nw.p2p1[i]
 			nw.mu.Unlock()
@@ -443,8 +461,45 @@ func runCeremony(t *testing.T, tr sink, sid int, sched []drv.Step) bool {
 			}
 			ev["casts"], ev["p2p"], ev["ncomm"], ev["feld"], ev["ids"] = keyList(cast), keyList(p2p), sortedKeys(ncomm), feld, ids
 			tr.Emit(ev)
-		case "D1C", "D1P", "D2":
+		case "D1C", "D1P", "D2", "RD":
 			i, j := drv.Num(st["i"]), drv.Num(st["j"])
+			if cb != nil {
+				ev := drv.Step{"ev": drv.Str(st["ev"]), "i": i, "j": j}
+				kind := drv.Str(st["ev"])
+				if kind == "RD" {
+					kind = map[string]string{"c1": "D1C", "c2": "D2", "p1": "RP"}[drv.Str(st["k"])]
+					ev["k"] = st["k"]
+				}
+				var err error
+				switch kind {
+				case "D1C":
+					err = cb.deliverCast(ctx, i, j, 1)
+				case "D2":
+					err = cb.deliverCast(ctx, i, j, 2)
+				case "RP":
+					nw.mu.Lock()
+					shares := nw.p2p1[i]
+					nw.mu.Unlock()
+					if err = cb.resendShares(ctx, i, j, shares); err == nil && !cb.releaseShare(i, j) {
+						return hang()
+					}
+				default:
+					if !cb.releaseShare(i, j) {
+						return hang()
+					}
+				}
+				ev["ok"] = err == nil
+				if err != nil {
+					ev["err"] = err.Error()
+				}
+				tr.Emit(ev)
+
+				continue
+			}
+			if drv.Str(st["ev"]) == "RD" { // the in-memory transport of mode mem keeps sets: a second copy changes nothing
+				tr.Emit(drv.Step{"ev": "RD", "i": i, "j": j, "k": st["k"], "ok": true})
+				continue
+			}
 			nw.mu.Lock()
 			switch drv.Str(st["ev"]) {
 			case "D1C":
@@ -477,6 +532,9 @@ func runCeremony(t *testing.T, tr sink, sid int, sched []drv.Step) bool {
 				tr.Emit(ev)
 
 				return abort()
+			}
+			if cb != nil && !cb.castCaptured(j, 2) {
+				return hang() // the real Round2 did not hand its cast to the wire
 			}
 			nw.mu.Lock()
 			ev["casts"] = keyList(nw.cast2[j])
